@@ -78,16 +78,22 @@ theorem checkConvergence_abs (t0 m s sl : α) (i : InfoS α) (dbz dqx : α) (t :
     absStatus (Info.checkConvergence i dbz dqx t a b c).status =
       Loop.checkConvergence (absInfo t0 m s sl i) ⟨dbz, dqx⟩ (absTols t)
         (absStatus a) (absStatus b) (absStatus c) := by
-  unfold Info.checkConvergence Loop.checkConvergence Info.isSolved Loop.isSolved
-    Info.isPrimalInfeasible Loop.isPrimalInfeasible Info.isDualInfeasible Loop.isDualInfeasible
-  simp only [absInfo, absTols, Loop.lit, ← h1000, gt_iff_lt]
+  unfold Info.checkConvergence Loop.checkConvergence
+  change (1000 : α) = Loop.lit 1000 at h1000
+  generalize (Loop.lit 1000 : α) = x at h1000 ⊢
+  subst h1000
   split
-  · rfl
-  · split
-    · split
-      · rfl
-      · split <;> rfl
-    · rfl
+  · rename_i h; exact (if_pos h).symm
+  · rename_i h; refine Eq.trans ?_ (if_neg h).symm
+    split
+    · rename_i h2; refine Eq.trans ?_ (if_pos h2).symm
+      split
+      · rename_i h3; exact (if_pos h3).symm
+      · rename_i h3; refine Eq.trans ?_ (if_neg h3).symm
+        split
+        · rename_i h4; exact (if_pos h4).symm
+        · rename_i h4; exact (if_neg h4).symm
+    · rename_i h2; exact (if_neg h2).symm
 
 end
 
